@@ -284,6 +284,27 @@ static int repair_step(struct snapraid_state* state, int rehash, unsigned pos, u
 	return -1;
 }
 
+/**
+ * Check if the hash could be one of the special INVALID (0x00) or ZERO (0xFF) values.
+ *
+ * With a reduced hash size hash_is_invalid() and hash_is_zero() always report 0,
+ * because the value could also be a real hash. When deciding if a recovered CHG
+ * block is possibly out of date, it's instead safe to always recognize them,
+ * because in the worst case we consider out of date a block that isn't.
+ * Otherwise with a reduced hash size the old data (or the zeros) recovered
+ * for a not yet synced block would be always taken for the new data.
+ */
+static int hash_maybe_special(const unsigned char* hash, unsigned char value)
+{
+	int i;
+
+	for (i = 0; i < BLOCK_HASH_SIZE; ++i)
+		if (hash[i] != value)
+			return 0;
+
+	return 1;
+}
+
 static int repair(struct snapraid_state* state, int rehash, unsigned pos, unsigned diskmax, struct failed_struct* failed, unsigned* failed_map, unsigned failed_count, void** buffer, void** buffer_recov, void* buffer_zero)
 {
 	int ret;
@@ -419,12 +440,12 @@ static int repair(struct snapraid_state* state, int rehash, unsigned pos, unsign
 				/* if the hash is invalid we cannot check the result */
 				/* this could happen if we have lost this information */
 				/* after an aborted sync */
-				if (hash_is_invalid(failed[j].block->hash)) {
+				if (hash_maybe_special(failed[j].block->hash, 0x00)) {
 					/* it may contain garbage */
 					failed[j].is_outofdate = 1;
 
 					log_tag("hash_unknown: Unknown hash on entry %u\n", j);
-				} else if (hash_is_zero(failed[j].block->hash)) {
+				} else if (hash_maybe_special(failed[j].block->hash, 0xFF)) {
 					/* if the block is not filled with 0, we are sure to have */
 					/* restored it to the state after the 'sync' */
 					/* instead, if the block is filled with 0, it could be either that the */
